@@ -64,7 +64,8 @@ type Opt struct {
 	Timeout   time.Duration
 	Home      string
 	Stdin     []byte
-	ViaGit    bool // run as `git sizer` (binary dir on PATH)
+	StdoutTo  string // when set, stdout is this file (e.g. /dev/full) instead of a buffer
+	ViaGit    bool   // run as `git sizer` (binary dir on PATH)
 	GitArgs   []string
 }
 
@@ -112,6 +113,12 @@ func (b *Build) Run(o Opt) Result {
 	var so, se bytes.Buffer
 	cmd.Stdout = &so
 	cmd.Stderr = &se
+	if o.StdoutTo != "" {
+		if f, err := os.OpenFile(o.StdoutTo, os.O_WRONLY, 0); err == nil {
+			defer f.Close()
+			cmd.Stdout = f
+		}
+	}
 	if o.Stdin != nil {
 		cmd.Stdin = bytes.NewReader(o.Stdin)
 	}
